@@ -655,7 +655,12 @@ func builtinAppend(i *Interpreter, args []Expr, env *Environment) (interface{}, 
 	if err != nil {
 		return nil, err
 	}
-	return append(arr, item), nil
+	// A new array: Go's append would write into spare capacity the argument
+	// shares with earlier results, so append(a, 1) followed by append(a, 2)
+	// turned the first result into [.., 2] as well.
+	out := make([]interface{}, len(arr), len(arr)+1)
+	copy(out, arr)
+	return append(out, item), nil
 }
 
 func builtinSet(i *Interpreter, args []Expr, env *Environment) (interface{}, error) {
